@@ -24,9 +24,9 @@ pub fn hx(b: &[u8]) -> String {
     s
 }
 
-/// outputs longer than 256 bytes are reported as `#len:fnv1a64` (the model prints the same form)
+/// outputs longer than 1024 bytes are reported as `#len:fnv1a64` (the model prints the same form)
 pub fn hx_out(b: &[u8]) -> String {
-    if b.len() <= 256 || std::env::var("HOOT_FULL").is_ok() {
+    if b.len() <= 1024 || std::env::var("HOOT_FULL").is_ok() {
         return hx(b);
     }
     let mut h: u64 = 0xcbf29ce484222325;
